@@ -332,7 +332,7 @@ func runC13(r *mon.Run) {
 	c13NegControls(r)
 	n := c13Exhaustive(r)
 	r.Put("exhaustive_subdomain", fmt.Sprintf("%d cases: 35 constructs x arity 0-5 x all non-empty subsets of gaps (complete)", n))
-	m := r.Pick(6000, 200000)
+	m := r.Pick(6000, 1000000)
 	mon.Parallel(m, func(i int) {
 		lc, c := c13RandomCase(r, int64(i))
 		c13ListCase(r, lc, c)
